@@ -79,6 +79,7 @@ func init() {
 	reg[NInts]()
 	reg[NMap]()
 	reg[NStruct]()
+	reg[map[NString]int]()
 
 	// depth 1: every constructor over int, and a spread of other element types
 	reg[*int]()
